@@ -10,6 +10,7 @@ from __future__ import annotations
 import ast
 
 from .c09_blocks import Block, Facts, find_block, expand as bexpand, norm as bnorm
+from .c09_facts import implied
 from .c09_terms import (Unsup, NONE, TRUE, FALSE, ELL, FULL, ZEROS, EMPTY, const, is_const, is_tag, subterms, tmap, is_slice, is_basic_item,
                         merge_sel, relation, mkidx, shape_after, show, MP_NAMES, MUT_METHODS)
 
@@ -289,6 +290,7 @@ class Sim:
         self.const_cache = {}
         self.closures = {}
         self.seqlen = {}           # content term of an opaque sequence -> number of targets it was unpacked into
+        self.merging = 0           # > 0 while the arms of a merged (undecided, simple) conditional are evaluated
 
     # ------------------------------------------------------------------------------------------------ heap
     def new_obj(self, kind, init, shape=None):
@@ -504,7 +506,8 @@ class Sim:
             for a2, v2 in self.assign.items():
                 if v2 and is_tag(a2, "cmp") and a2[1] == "Eq" and a2[2] == atom[2] and is_const(a2[3]) and a2[3] != atom[3]:
                     return False
-        return None
+        # what the decisions made so far about the same subject say together (X in (a, b) and X != a: X == b; D[X] went through: X is a key)
+        return implied(self.assign, atom)
 
     def atom_value(self, atom):
         v = self.known(atom)
@@ -804,6 +807,19 @@ class Sim:
             if len(items) == 1 and set(obj.entries) == {TRUE, FALSE} and not obj.meta.get("ns") and self.as_test(items[0]) is not None:
                 # {True: x, False: y}[test]
                 return self.subscript(("tuple", obj.entries[FALSE], obj.entries[TRUE]), items, node)
+            if len(items) == 1 and not obj.meta.get("ns") and obj.entries and all(is_const(k) for k in obj.entries) and \
+                    not is_const(items[0]) and not any(is_tag(x, "lv", "blk", "bv", "unboundlocal") for x in subterms(items[0])) and \
+                    not any(is_tag(x, "ref", "dref") for v in obj.entries.values() if isinstance(v, tuple) for x in subterms(v)):
+                # a table of constants / functions looked up under a key that is not known: the statement goes through only when the key is one of
+                # the table's keys (KeyError otherwise) - a fact of the path, unless the lookup sits in an arm that was merged
+                atom = ("cmp", "In", items[0], ("tuple",) + tuple(sorted(obj.entries, key=repr)))
+                if not self.merging:
+                    k = self.known(atom)
+                    if k is False:
+                        raise PathDead()
+                    if k is None:
+                        self.assign[atom] = True
+                return mkidx(self.snap(base), items)
             raise Unsup(f"dict entry {show(items[0]) if items else ''} not set on this path")
         if base == NONE:
             self.none_uses.append((self.ctx, node, "subscript of None"))
@@ -915,7 +931,11 @@ class Sim:
                 r = self.try_decided(c)
                 if r is not None:
                     return self.ev(node.body if r else node.orelse, fr)
-                a, b = self.ev(node.body, fr), self.ev(node.orelse, fr)
+                self.merging += 1
+                try:
+                    a, b = self.ev(node.body, fr), self.ev(node.orelse, fr)
+                finally:
+                    self.merging -= 1
                 if a == b:
                     return a
                 if not carries_fn(a) and not carries_fn(b):
@@ -1129,10 +1149,58 @@ class Sim:
         if fn is None:
             raise Unsup(f"function {q} not found")
         if not self.must_inline(rel, q, args, kws):
-            return self.fresh(self._callterm(f, args, kws))
+            if not getattr(self.world, "inline_all", False) or q in getattr(self.world, "keep_opaque", ()):
+                return self.fresh(self._callterm(f, args, kws))
+            # normalising run: every helper of the analysed modules is followed, in the parent as in the tasks (a helper that only computes,
+            # with early returns, as one merged value where its tests are not decided)
+            return self.call_body(fn, rel, q, args, kws, node, merged=True)
         return self.call_body(fn, rel, q, args, kws, node)
 
-    def call_body(self, fn, rel, q, args, kws, node, outer=None):
+    def merged_block(self, stmts, fr):
+        """the statements of a helper that only computes (see `simple_if`), up to its return -> the returned value, merged over the tests that
+        are not decided: `if c: return a` followed by `return b` is `a if c else b`"""
+        for i, st in enumerate(stmts):
+            self.cur_node = st
+            if isinstance(st, ast.Return):
+                return self.ev(st.value, fr) if st.value is not None else NONE
+            if isinstance(st, ast.If) and any(isinstance(n, ast.Return) for n in ast.walk(st)):
+                c = self.snap(self.ev(st.test, fr))
+                r = self.try_decided(c)
+                rest = list(stmts[i + 1:])
+                if r is not None:
+                    return self.merged_block(list(st.body if r else st.orelse) + rest, fr)
+                base = dict(fr.locals)
+                n_ev = len(self.events)
+                vals = []
+                self.merging += 1
+                try:
+                    for arm in (st.body, st.orelse):
+                        fr.locals = dict(base)
+                        try:
+                            vals.append(self.merged_block(list(arm) + rest, fr))
+                        except PathDead:
+                            vals.append(None)
+                finally:
+                    self.merging -= 1
+                if len(self.events) != n_ev:
+                    raise Unsup("store under a test that was meant to be merged")
+                a, b = vals
+                if a is None and b is None:
+                    raise PathDead()
+                if a is None or b is None:
+                    return b if a is None else a          # an arm that only raises: the function goes on under the other one
+                return self.merge_values(c, a, b)
+            self.exec_stmt(st, fr)
+        return NONE
+
+    def merge_values(self, c, a, b):
+        if a == b:
+            return a
+        if is_tag(a, "tuple") and is_tag(b, "tuple") and len(a) == len(b):
+            return ("tuple",) + tuple(self.merge_values(c, x, y) for x, y in zip(a[1:], b[1:]))
+        return ("phi", c, a, b)
+
+    def call_body(self, fn, rel, q, args, kws, node, outer=None, merged=False):
         if self.depth >= self.MAXDEPTH:
             raise Unsup("helper nesting too deep")
         fr = Frame(fn, rel, self.depth + 1)
@@ -1186,6 +1254,9 @@ class Sim:
                 ret = self.ev(fn.body, fr)
             elif any(isinstance(n, (ast.Yield, ast.YieldFrom)) for n in _walk_scope(fn)):
                 ret = self.ev(self.generator_as_genexp(fn), fr)
+            elif merged and not self.merging and any(isinstance(n, ast.Return) for b in fn.body if isinstance(b, ast.If) for n in ast.walk(b)) and \
+                    self.simple_if(ast.If(test=ast.Constant(value=True), body=fn.body, orelse=[]), fr, returns=True):
+                ret = self.merged_block(fn.body, fr)
             else:
                 self.exec_block(fn.body, fr)
                 ret = NONE
@@ -1859,7 +1930,7 @@ class Sim:
             return node.id
         return None
 
-    def simple_if(self, st, fr):
+    def simple_if(self, st, fr, returns=False):
         mi = self.world.mods[fr.rel]
 
         def ok_expr(e):
@@ -1879,7 +1950,7 @@ class Sim:
                     elif isinstance(fx, ast.Attribute) and isinstance(fx.value, ast.Name) and mi.imports.get(fx.value.id, ("",))[0] == "rmod":
                         callee = (mi.imports[fx.value.id][1], fx.attr)
                     if callee is not None:
-                        if self.frames or self.ctx[0] != "parent":
+                        if self.frames or self.ctx[0] != "parent" or getattr(self.world, "inline_all", False):
                             return False
                         if callee[1] in self.world.mods[callee[0]].funcs and self.world.summary(*callee) & {"global", "mutates", "mp", "calls_param"}:
                             return False
@@ -1890,6 +1961,10 @@ class Sim:
         def ok_block(stmts):
             for s in stmts:
                 if isinstance(s, (ast.Pass, ast.Raise)):
+                    continue
+                if returns and isinstance(s, ast.Return):
+                    if s.value is not None and not ok_expr(s.value):
+                        return False
                     continue
                 if isinstance(s, ast.Expr):
                     if not ok_expr(s.value):
@@ -1924,17 +1999,21 @@ class Sim:
         n_ev = len(self.events)
         base = dict(fr.locals)
         dead1 = dead2 = False
+        self.merging += 1
         try:
-            self.exec_block(st.body, fr)
-        except PathDead:
-            dead1 = True
-        l1 = fr.locals
-        fr.locals = dict(base)
-        try:
-            self.exec_block(st.orelse, fr)
-        except PathDead:
-            dead2 = True
-        l2 = fr.locals
+            try:
+                self.exec_block(st.body, fr)
+            except PathDead:
+                dead1 = True
+            l1 = fr.locals
+            fr.locals = dict(base)
+            try:
+                self.exec_block(st.orelse, fr)
+            except PathDead:
+                dead2 = True
+            l2 = fr.locals
+        finally:
+            self.merging -= 1
         if len(self.events) != n_ev:
             raise Unsup("store under a test that was meant to be merged")
         if dead1 and dead2:
